@@ -1,6 +1,7 @@
 import Martian.Determinism
 import Martian.DeterminismAccum
 import Martian.DeterminismAccum2
+import Martian.ForkOrder
 import Driver.Util
 
 /-! Line-protocol handler for property C10.
@@ -13,6 +14,10 @@ import Driver.Util
   fsc <tree> <initial hex list>   tree ::= L <hex list> | S <c hex> <ins 0|1> tree | M <c hex> tree | N <n> tree^n
                          reply: the set after STree.walk, sorted (hex list), and sorted S ∪ free
   callmode <kinds>       kinds: key:kind,…  kind ∈ x(not a source) s a m n u     reply: callMode callModeIn
+  forkorder <roots> <table> <rt table>   roots: `;`-separated a<n> | m<hex,hex,…> | d ;  table: `.` or `/`-separated
+                         <j>:<pre>=<elems>, pre = `.` or parts joined by `+` (i<n> k<hex> u e), elems = a<n> | m<hex,…> | u
+                         (no entry = unknown); reply: the forks of MakeForkIds (then, if the rt table is not `.`, of
+                         the run-time expansion of that list), `;`-separated, parts joined by `+`
   firstfail <entries>    entries: key:ok:text,…   reply: vals(key=val;…) err(`none`|`some hex`) nodup
 -/
 namespace Driver.C10
@@ -80,6 +85,60 @@ def dedup (l : List Key) : List Key := l.foldl (fun acc k => if acc.contains k t
 def kvList (l : List (Key × Bytes)) : String :=
   if l.isEmpty then "." else ";".intercalate (l.map fun p => hexOfNats p.1 ++ "=" ++ hexOfNats p.2)
 
+open Martian.ForkOrder in
+def foKeys (s : String) : Option (List Key) :=
+  if s == "" then some [] else (s.splitOn ",").mapM nats
+
+open Martian.ForkOrder in
+def foElems (s : String) : Option Elems :=
+  match s.toList with
+  | 'u' :: _ => some .unknown
+  | 'a' :: r => (String.ofList r).toNat?.map Elems.arr
+  | 'm' :: r => (foKeys (String.ofList r)).map Elems.keys
+  | _ => none
+
+open Martian.ForkOrder in
+def foPart (s : String) : Option Part :=
+  match s.toList with
+  | ['u'] => some .undet
+  | ['e'] => some .empty
+  | 'i' :: r => (String.ofList r).toNat?.map Part.idx
+  | 'k' :: r => (nats (String.ofList r)).map Part.key
+  | _ => none
+
+open Martian.ForkOrder in
+def foPartStr : Part → String
+  | .undet => "u"
+  | .empty => "e"
+  | .idx n => "i" ++ toString n
+  | .key k => "k" ++ hexOfNats k
+
+open Martian.ForkOrder in
+def foTable (s : String) : Option (List (Nat × List Part × Elems)) :=
+  if s == "." then some [] else
+  (s.splitOn "/").mapM fun e =>
+    match e.splitOn "=" with
+    | [lhs, el] =>
+      match lhs.splitOn ":" with
+      | [j, pre] => do
+        let j ← j.toNat?
+        let pre ← if pre == "." then some [] else (pre.splitOn "+").mapM foPart
+        let el ← foElems el
+        pure (j, pre, el)
+      | _ => none
+    | _ => none
+
+open Martian.ForkOrder in
+def foInner (t : List (Nat × List Part × Elems)) : Inner := fun j pre =>
+  match t.find? fun e => e.1 == j && e.2.1 == pre with
+  | some e => e.2.2
+  | none => .unknown
+
+open Martian.ForkOrder in
+def foRoots (s : String) : Option (List Root) :=
+  (s.splitOn ";").mapM fun r =>
+    if r == "d" then some Root.dyn else (foElems r).map Root.static
+
 def handle (op : String) (args : List String) : Option String :=
   match op, args with
   | "mapformat", [st, pre, vind, es] => do
@@ -130,6 +189,15 @@ def handle (op : String) (args : List String) : Option String :=
       | [k, kind] => do let k ← nats k; let m ← modeOfKind kind; pure (k, m)
       | _ => none
     pure (modeStr (callMode l) ++ " " ++ modeStr (callModeIn l) ++ " " ++ boolStr (nodupKeys l))
+  | "forkorder", [roots, tbl, rt] => do
+    let roots ← foRoots roots
+    let tbl ← foTable tbl
+    let static := Martian.ForkOrder.forkOrder roots (foInner tbl)
+    let res ← if rt == "." then some static else do
+      let rtt ← foTable rt
+      pure (Martian.ForkOrder.expandRuntime roots.length (foInner rtt) static)
+    pure (if res.isEmpty then "." else
+      ";".intercalate (res.map fun f => "+".intercalate (f.map foPartStr)))
   | "firstfail", [es] => do
     let es ← entries es
     let l ← es.mapM fun f => match f with
